@@ -174,6 +174,8 @@ class ModelInterp(MiniEval):
                 return getattr(base, attr)
         if isinstance(base, Hook) and attr in base.attrs:
             return base.attrs[attr]
+        if isinstance(base, type) and base.__module__ == 'builtins' and attr in ('__name__', '__module__', '__qualname__'):
+            return getattr(base, attr)
         if type(base) in (dict, list, tuple) and attr == '__getitem__':
             return Hook(base.__getitem__)  # used as key= / mapping function
         if isinstance(base, tuple) and attr in getattr(base, '_fields', ()):
@@ -293,6 +295,8 @@ class ModelInterp(MiniEval):
                 v = self.expr(e.args[0], env)
                 if isinstance(v, Stub):
                     return ClassRef(v._cls)
+                if v is None or type(v) in (str, int, float, bool, tuple, list, dict, set, frozenset, bytes):
+                    return type(v)
             if f.id == 'typename' and len(e.args) == 1:
                 v = self.expr(e.args[0], env)
                 if isinstance(v, Stub):
